@@ -1,8 +1,783 @@
-//! C13 runner (stub). Replace the body; keep the signature `pub fn run(args: &[String])`.
-#[allow(unused_imports)]
-use crate::common::{catch, each_line, opt_i64};
+//! C13 runner.
+//!
+//! `vharness run c13 sites <repo>`
+//!     Re-extract from the CURRENT source (with `syn`/`proc_macro2`): RUST_KEYWORDS and `is_keyword`,
+//!     Incan's KEYWORDS (canonical spellings + aliases), the lexer's identifier character classes,
+//!     `escape_keyword` (as a small decision list), every `format_ident!` / `Ident::new` site under
+//!     `src/backend/ir/emit/**` (file, enclosing fn, format string, fed expression, whether the
+//!     fed expression goes through `escape_keyword`), and the `__`-prefixed identifiers the emitter
+//!     writes literally into `quote!` bodies (generated temporaries). One JSON object on stdout.
+//!     Anything whose shape is not recognised is reported in `"errors"` (the check turns that into
+//!     "tie broken"), never silently skipped.
+//!
+//! `vharness run c13 emit`
+//!     stdin: one JSON object per line `{"id": .., "src": "<incan source>", "modules": [[name, src]..]?}`.
+//!     Runs the REAL pipeline lex -> parse -> typecheck -> lower -> IrEmitter (through
+//!     `IrCodegen::try_generate`), re-parses the output with `syn::parse_file`, flattens it to a
+//!     token list. stdout: one JSON object per line
+//!     `{"id", "stage": "ok|lex|parse|typecheck|lower|emit|panic", "msg", "syn_ok", "syn_msg", "tokens", "rust"}`.
+use crate::common::{catch, each_line};
+use proc_macro2::{Delimiter, TokenStream, TokenTree};
+use quote::ToTokens;
+use serde_json::{json, Value};
+use std::path::{Path, PathBuf};
+use std::str::FromStr;
 
-pub fn run(_args: &[String]) {
-    eprintln!("c13: runner not implemented");
-    std::process::exit(2);
+pub fn run(args: &[String]) {
+    match args.first().map(|s| s.as_str()).unwrap_or("") {
+        "sites" => {
+            let repo = args.get(1).map(|s| s.as_str()).unwrap_or("/repo");
+            println!("{}", extract(Path::new(repo)));
+        }
+        "emit" => emit_mode(),
+        other => {
+            eprintln!("c13: unknown mode {:?} (sites <repo> | emit)", other);
+            std::process::exit(2);
+        }
+    }
+}
+
+// ------------------------------------------------------------------------------------------------
+// emit mode: the real pipeline
+// ------------------------------------------------------------------------------------------------
+
+fn flatten(ts: TokenStream, out: &mut Vec<String>) {
+    for tt in ts {
+        match tt {
+            TokenTree::Group(g) => {
+                let (o, c) = match g.delimiter() {
+                    Delimiter::Parenthesis => ("(", ")"),
+                    Delimiter::Brace => ("{", "}"),
+                    Delimiter::Bracket => ("[", "]"),
+                    Delimiter::None => ("", ""),
+                };
+                if !o.is_empty() {
+                    out.push(o.to_string());
+                }
+                flatten(g.stream(), out);
+                if !c.is_empty() {
+                    out.push(c.to_string());
+                }
+            }
+            TokenTree::Ident(i) => out.push(i.to_string()),
+            TokenTree::Punct(p) => out.push(p.as_char().to_string()),
+            TokenTree::Literal(l) => out.push(l.to_string()),
+        }
+    }
+}
+
+fn first_msg(errs: &[incan::frontend::diagnostics::CompileError]) -> String {
+    errs.first().map(|e| e.message.clone()).unwrap_or_default()
+}
+
+fn pipeline(src: &str, modules: &[(String, String)]) -> (String, String, Option<String>) {
+    use incan::frontend::{lexer, parser};
+    let lexparse = |s: &str| -> Result<incan::frontend::ast::Program, (String, String)> {
+        let toks = lexer::lex(s).map_err(|e| ("lex".to_string(), first_msg(&e)))?;
+        parser::parse(&toks).map_err(|e| ("parse".to_string(), first_msg(&e)))
+    };
+    let mut dep_asts = Vec::new();
+    for (name, msrc) in modules {
+        match lexparse(msrc) {
+            Ok(a) => dep_asts.push((name.clone(), a)),
+            Err((st, m)) => return (format!("dep-{}", st), m, None),
+        }
+    }
+    let ast = match lexparse(src) {
+        Ok(a) => a,
+        Err((st, m)) => return (st, m, None),
+    };
+    let mut cg = incan::IrCodegen::new();
+    for (name, a) in &dep_asts {
+        cg.add_module(name, a);
+    }
+    match cg.try_generate(&ast) {
+        Ok(code) => ("ok".to_string(), String::new(), Some(code)),
+        Err(incan::backend::GenerationError::TypeCheck(errs)) => ("typecheck".to_string(), first_msg(&errs), None),
+        Err(incan::backend::GenerationError::Lowering(e)) => ("lower".to_string(), e.to_string(), None),
+        Err(incan::backend::GenerationError::Emission(e)) => ("emit".to_string(), e.to_string(), None),
+    }
+}
+
+fn emit_mode() {
+    each_line(|line| {
+        let v: Value = match serde_json::from_str(line) {
+            Ok(v) => v,
+            Err(e) => return json!({"id": null, "stage": "bad-input", "msg": e.to_string()}).to_string(),
+        };
+        let id = v["id"].clone();
+        let src = v["src"].as_str().unwrap_or("").to_string();
+        let modules: Vec<(String, String)> = v["modules"]
+            .as_array()
+            .map(|a| {
+                a.iter()
+                    .map(|p| (p[0].as_str().unwrap_or("").to_string(), p[1].as_str().unwrap_or("").to_string()))
+                    .collect()
+            })
+            .unwrap_or_default();
+        let r = catch(|| pipeline(&src, &modules));
+        let (stage, msg, code) = match r {
+            Ok(t) => t,
+            Err(p) => ("panic".to_string(), p, None),
+        };
+        let mut syn_ok = false;
+        let mut syn_msg = String::new();
+        let mut tokens: Vec<String> = Vec::new();
+        if let Some(code) = &code {
+            match syn::parse_file(code) {
+                Ok(_) => syn_ok = true,
+                Err(e) => syn_msg = e.to_string(),
+            }
+            match TokenStream::from_str(code) {
+                Ok(ts) => flatten(ts, &mut tokens),
+                Err(e) => {
+                    syn_ok = false;
+                    syn_msg = format!("lex: {}", e);
+                }
+            }
+        }
+        json!({"id": id, "stage": stage, "msg": msg, "syn_ok": syn_ok, "syn_msg": syn_msg,
+               "tokens": tokens, "rust": code.unwrap_or_default()})
+        .to_string()
+    });
+}
+
+// ------------------------------------------------------------------------------------------------
+// sites mode: extraction from source
+// ------------------------------------------------------------------------------------------------
+
+fn norm_into(ts: TokenStream, out: &mut Vec<String>, glue: &mut bool) {
+    for tt in ts {
+        let piece = match tt {
+            TokenTree::Group(g) => {
+                let (o, c) = match g.delimiter() {
+                    Delimiter::Parenthesis => ("(", ")"),
+                    Delimiter::Brace => ("{", "}"),
+                    Delimiter::Bracket => ("[", "]"),
+                    Delimiter::None => ("", ""),
+                };
+                if !o.is_empty() {
+                    out.push(o.to_string());
+                }
+                *glue = false;
+                norm_into(g.stream(), out, glue);
+                *glue = false;
+                if !c.is_empty() {
+                    out.push(c.to_string());
+                }
+                continue;
+            }
+            TokenTree::Ident(i) => (i.to_string(), false),
+            TokenTree::Literal(l) => (l.to_string(), false),
+            TokenTree::Punct(p) => (p.as_char().to_string(), p.spacing() == proc_macro2::Spacing::Joint),
+        };
+        if *glue {
+            if let Some(last) = out.last_mut() {
+                last.push_str(&piece.0);
+            }
+        } else {
+            out.push(piece.0);
+        }
+        *glue = piece.1;
+    }
+}
+
+/// Token text with single spaces; multi-character operators (`::`, `==`, `..`) kept together.
+fn norm(ts: &TokenStream) -> String {
+    let mut v = Vec::new();
+    let mut glue = false;
+    norm_into(ts.clone(), &mut v, &mut glue);
+    v.join(" ")
+}
+
+fn read_file(p: &Path, errors: &mut Vec<String>) -> Option<syn::File> {
+    let text = match std::fs::read_to_string(p) {
+        Ok(t) => t,
+        Err(e) => {
+            errors.push(format!("cannot read {}: {}", p.display(), e));
+            return None;
+        }
+    };
+    match syn::parse_file(&text) {
+        Ok(f) => Some(f),
+        Err(e) => {
+            errors.push(format!("cannot parse {}: {}", p.display(), e));
+            None
+        }
+    }
+}
+
+fn str_lits(ts: TokenStream, out: &mut Vec<String>) {
+    for tt in ts {
+        match tt {
+            TokenTree::Group(g) => str_lits(g.stream(), out),
+            TokenTree::Literal(l) => {
+                if let Ok(s) = syn::parse_str::<syn::LitStr>(&l.to_string()) {
+                    out.push(s.value());
+                }
+            }
+            _ => {}
+        }
+    }
+}
+
+fn find_const<'a>(f: &'a syn::File, name: &str) -> Option<&'a syn::ItemConst> {
+    f.items.iter().find_map(|it| match it {
+        syn::Item::Const(c) if c.ident == name => Some(c),
+        _ => None,
+    })
+}
+
+fn find_fn<'a>(f: &'a syn::File, name: &str) -> Option<&'a syn::ItemFn> {
+    f.items.iter().find_map(|it| match it {
+        syn::Item::Fn(c) if c.sig.ident == name => Some(c),
+        _ => None,
+    })
+}
+
+/// `c.is_ascii_alphabetic() || c == '_'`  ->  ["alpha", "ch:95"]
+fn char_class(e: &syn::Expr, out: &mut Vec<String>) -> Result<(), String> {
+    match e {
+        syn::Expr::Binary(b) if matches!(b.op, syn::BinOp::Or(_)) => {
+            char_class(&b.left, out)?;
+            char_class(&b.right, out)
+        }
+        syn::Expr::Paren(p) => char_class(&p.expr, out),
+        syn::Expr::MethodCall(m) if m.args.is_empty() => {
+            let k = match m.method.to_string().as_str() {
+                "is_ascii_alphabetic" => "alpha",
+                "is_ascii_alphanumeric" => "alnum",
+                "is_ascii_digit" => "digit",
+                "is_ascii_lowercase" => "lower",
+                "is_ascii_uppercase" => "upper",
+                other => return Err(format!("unknown char predicate {}", other)),
+            };
+            out.push(k.to_string());
+            Ok(())
+        }
+        syn::Expr::Binary(b) if matches!(b.op, syn::BinOp::Eq(_)) => {
+            if let syn::Expr::Lit(syn::ExprLit { lit: syn::Lit::Char(c), .. }) = &*b.right {
+                out.push(format!("ch:{}", c.value() as u32));
+                Ok(())
+            } else {
+                Err("char comparison with a non-literal".to_string())
+            }
+        }
+        other => Err(format!("unrecognised character-class expression `{}`", norm(&other.to_token_stream()))),
+    }
+}
+
+fn fn_tail_expr(f: &syn::ItemFn) -> Option<&syn::Expr> {
+    if f.block.stmts.len() != 1 {
+        return None;
+    }
+    match &f.block.stmts[0] {
+        syn::Stmt::Expr(e, None) => Some(e),
+        _ => None,
+    }
+}
+
+/// condition of escape_keyword: `matches!(name, "a" | "b")` -> {"in": [..]};
+/// `rust_keywords::is_keyword(name)` -> {"rust_keyword": true}
+fn esc_cond(e: &syn::Expr) -> Result<Value, String> {
+    match e {
+        syn::Expr::Macro(m) if m.mac.path.is_ident("matches") => {
+            let mut lits = Vec::new();
+            str_lits(m.mac.tokens.clone(), &mut lits);
+            let toks = norm(&m.mac.tokens);
+            // only `name , "a" | "b" ...`
+            let expect = std::iter::once("name".to_string())
+                .chain(std::iter::once(",".to_string()))
+                .chain(lits.iter().enumerate().flat_map(|(i, l)| {
+                    let mut v = Vec::new();
+                    if i > 0 {
+                        v.push("|".to_string());
+                    }
+                    v.push(format!("{:?}", l));
+                    v
+                }))
+                .collect::<Vec<_>>()
+                .join(" ");
+            if toks != expect {
+                return Err(format!("unrecognised matches! in escape_keyword: `{}`", toks));
+            }
+            Ok(json!({"in": lits}))
+        }
+        syn::Expr::Call(c) => {
+            let f = norm(&c.func.to_token_stream());
+            let a = norm(&c.args.to_token_stream());
+            if (f == "rust_keywords :: is_keyword" || f == "is_keyword") && a == "name" {
+                Ok(json!({"rust_keyword": true}))
+            } else {
+                Err(format!("unrecognised call in escape_keyword condition: `{} ( {} )`", f, a))
+            }
+        }
+        syn::Expr::Paren(p) => esc_cond(&p.expr),
+        other => Err(format!("unrecognised escape_keyword condition `{}`", norm(&other.to_token_stream()))),
+    }
+}
+
+/// result of escape_keyword: `name.to_string()` -> ["", ""]; `format!("r#{}", name)` -> ["r#", ""]
+fn esc_result(e: &syn::Expr) -> Result<Value, String> {
+    let e = match e {
+        syn::Expr::Return(r) => match &r.expr {
+            Some(x) => &**x,
+            None => return Err("bare return".to_string()),
+        },
+        x => x,
+    };
+    match e {
+        syn::Expr::MethodCall(m)
+            if (m.method == "to_string" || m.method == "to_owned" || m.method == "into")
+                && norm(&m.receiver.to_token_stream()) == "name"
+                && m.args.is_empty() =>
+        {
+            Ok(json!(["", ""]))
+        }
+        syn::Expr::Macro(m) if m.mac.path.is_ident("format") => {
+            let mut lits = Vec::new();
+            str_lits(m.mac.tokens.clone(), &mut lits);
+            let toks = norm(&m.mac.tokens);
+            if lits.len() != 1 || toks != format!("{:?} , name", lits[0]) {
+                return Err(format!("unrecognised format! in escape_keyword: `{}`", toks));
+            }
+            let parts: Vec<&str> = lits[0].split("{}").collect();
+            if parts.len() != 2 || parts.iter().any(|p| p.contains('{') || p.contains('}')) {
+                return Err(format!("unrecognised format string {:?}", lits[0]));
+            }
+            Ok(json!([parts[0], parts[1]]))
+        }
+        other => Err(format!("unrecognised escape_keyword result `{}`", norm(&other.to_token_stream()))),
+    }
+}
+
+fn escape_keyword_rules(f: &syn::ImplItemFn) -> Result<Value, String> {
+    let mut rules = Vec::new();
+    let n = f.block.stmts.len();
+    for (i, st) in f.block.stmts.iter().enumerate() {
+        let last = i + 1 == n;
+        match st {
+            syn::Stmt::Expr(syn::Expr::If(ifx), _) if !last && ifx.else_branch.is_none() => {
+                if ifx.then_branch.stmts.len() != 1 {
+                    return Err("escape_keyword: if-body with more than one statement".to_string());
+                }
+                let body = match &ifx.then_branch.stmts[0] {
+                    syn::Stmt::Expr(e @ syn::Expr::Return(_), _) => e,
+                    _ => return Err("escape_keyword: if-body is not a return".to_string()),
+                };
+                rules.push(json!({"cond": esc_cond(&ifx.cond)?, "result": esc_result(body)?}));
+            }
+            syn::Stmt::Expr(e, None) if last => {
+                rules.push(json!({"cond": {"always": true}, "result": esc_result(e)?}));
+            }
+            syn::Stmt::Expr(e @ syn::Expr::Return(_), Some(_)) if last => {
+                rules.push(json!({"cond": {"always": true}, "result": esc_result(e)?}));
+            }
+            other => {
+                return Err(format!("escape_keyword: unrecognised statement `{}`", norm(&other.to_token_stream())));
+            }
+        }
+    }
+    Ok(Value::Array(rules))
+}
+
+fn rs_files(dir: &Path, out: &mut Vec<PathBuf>) {
+    if let Ok(rd) = std::fs::read_dir(dir) {
+        let mut es: Vec<_> = rd.filter_map(|e| e.ok()).map(|e| e.path()).collect();
+        es.sort();
+        for p in es {
+            if p.is_dir() {
+                rs_files(&p, out);
+            } else if p.extension().map(|e| e == "rs").unwrap_or(false) {
+                out.push(p);
+            }
+        }
+    }
+}
+
+struct FnTokens {
+    name: String,
+    tokens: TokenStream,
+    is_test: bool,
+}
+
+fn has_test_attr(attrs: &[syn::Attribute]) -> bool {
+    attrs.iter().any(|a| {
+        let s = norm(&a.to_token_stream());
+        s.contains("test")
+    })
+}
+
+fn collect_fns(items: &[syn::Item], in_test: bool, out: &mut Vec<FnTokens>, esc: &mut Option<syn::ImplItemFn>) {
+    for it in items {
+        match it {
+            syn::Item::Fn(f) => out.push(FnTokens {
+                name: f.sig.ident.to_string(),
+                tokens: f.block.to_token_stream(),
+                is_test: in_test || has_test_attr(&f.attrs),
+            }),
+            syn::Item::Impl(im) => {
+                for ii in &im.items {
+                    if let syn::ImplItem::Fn(f) = ii {
+                        if f.sig.ident == "escape_keyword" {
+                            *esc = Some(f.clone());
+                        }
+                        out.push(FnTokens {
+                            name: f.sig.ident.to_string(),
+                            tokens: f.block.to_token_stream(),
+                            is_test: in_test || has_test_attr(&f.attrs),
+                        });
+                    }
+                }
+            }
+            syn::Item::Mod(m) => {
+                if let Some((_, its)) = &m.content {
+                    collect_fns(its, in_test || has_test_attr(&m.attrs), out, esc);
+                }
+            }
+            _ => {}
+        }
+    }
+}
+
+/// `let v = <.. escape_keyword ..> ;` anywhere in the function: v counts as escaped.
+fn escaped_lets(ts: &TokenStream, out: &mut Vec<String>) {
+    let v: Vec<TokenTree> = ts.clone().into_iter().collect();
+    let mut i = 0;
+    while i < v.len() {
+        if let TokenTree::Group(g) = &v[i] {
+            escaped_lets(&g.stream(), out);
+        }
+        if let TokenTree::Ident(id) = &v[i] {
+            if id == "let" {
+                // let [mut] name [: ty] = ... ;
+                let mut j = i + 1;
+                if let Some(TokenTree::Ident(m)) = v.get(j) {
+                    if m == "mut" {
+                        j += 1;
+                    }
+                }
+                if let Some(TokenTree::Ident(name)) = v.get(j) {
+                    let mut k = j + 1;
+                    let mut rhs = Vec::new();
+                    let mut seen_eq = false;
+                    while k < v.len() {
+                        if let TokenTree::Punct(p) = &v[k] {
+                            if p.as_char() == ';' {
+                                break;
+                            }
+                            if p.as_char() == '=' && !seen_eq {
+                                seen_eq = true;
+                                k += 1;
+                                continue;
+                            }
+                        }
+                        if seen_eq {
+                            rhs.push(v[k].clone());
+                        }
+                        k += 1;
+                    }
+                    let rhs_ts: TokenStream = rhs.into_iter().collect();
+                    if norm(&rhs_ts).split(' ').any(|t| t == "escape_keyword") {
+                        out.push(name.to_string());
+                    }
+                }
+            }
+        }
+        i += 1;
+    }
+}
+
+fn split_top_commas(ts: TokenStream) -> Vec<TokenStream> {
+    let mut parts = vec![Vec::new()];
+    for tt in ts {
+        if let TokenTree::Punct(p) = &tt {
+            if p.as_char() == ',' {
+                parts.push(Vec::new());
+                continue;
+            }
+        }
+        parts.last_mut().unwrap().push(tt);
+    }
+    parts.into_iter().map(|v| v.into_iter().collect()).collect()
+}
+
+struct RawSite {
+    kind: &'static str,
+    fmt: String,
+    expr: String,
+    escaped: bool,
+    via_let: bool,
+    nargs: usize,
+}
+
+fn scan_sites(ts: &TokenStream, esc_lets: &[String], sites: &mut Vec<RawSite>, fixed: &mut Vec<String>, in_quote: bool) {
+    let v: Vec<TokenTree> = ts.clone().into_iter().collect();
+    let mut i = 0;
+    while i < v.len() {
+        match &v[i] {
+            TokenTree::Ident(id) => {
+                let s = id.to_string();
+                if in_quote && s.starts_with("__") {
+                    fixed.push(s.clone());
+                }
+                let bang = matches!(v.get(i + 1), Some(TokenTree::Punct(p)) if p.as_char() == '!');
+                if bang {
+                    if let Some(TokenTree::Group(g)) = v.get(i + 2) {
+                        if s == "format_ident" {
+                            let parts = split_top_commas(g.stream());
+                            let mut lits = Vec::new();
+                            if let Some(p0) = parts.first() {
+                                str_lits(p0.clone(), &mut lits);
+                            }
+                            let fmt = lits.first().cloned().unwrap_or_else(|| "<non-literal>".to_string());
+                            let args: Vec<String> = parts.iter().skip(1).map(norm).filter(|a| !a.is_empty()).collect();
+                            let expr = args.join(" , ");
+                            let direct = expr.split(' ').any(|t| t == "escape_keyword");
+                            let bare = expr.trim_start_matches("& ").to_string();
+                            let via_let = !direct && esc_lets.iter().any(|l| *l == bare);
+                            sites.push(RawSite {
+                                kind: "format_ident",
+                                fmt,
+                                expr,
+                                escaped: direct || via_let,
+                                via_let,
+                                nargs: args.len(),
+                            });
+                            // arguments may contain further sites
+                            scan_sites(&g.stream(), esc_lets, sites, fixed, false);
+                            i += 3;
+                            continue;
+                        }
+                        let q = s == "quote" || s == "quote_spanned" || s == "parse_quote";
+                        scan_sites(&g.stream(), esc_lets, sites, fixed, q || in_quote);
+                        i += 3;
+                        continue;
+                    }
+                }
+                // Ident :: new ( expr , span )
+                if s == "Ident" {
+                    let c1 = matches!(v.get(i + 1), Some(TokenTree::Punct(p)) if p.as_char() == ':');
+                    let c2 = matches!(v.get(i + 2), Some(TokenTree::Punct(p)) if p.as_char() == ':');
+                    let nw = matches!(v.get(i + 3), Some(TokenTree::Ident(n)) if n == "new" || n == "new_raw");
+                    if c1 && c2 && nw {
+                        if let Some(TokenTree::Group(g)) = v.get(i + 4) {
+                            let parts = split_top_commas(g.stream());
+                            let expr = parts.first().map(norm).unwrap_or_default();
+                            let direct = expr.split(' ').any(|t| t == "escape_keyword");
+                            let bare = expr.trim_start_matches("& ").to_string();
+                            let via_let = !direct && esc_lets.iter().any(|l| *l == bare);
+                            sites.push(RawSite {
+                                kind: "Ident::new",
+                                fmt: "{}".to_string(),
+                                expr,
+                                escaped: direct || via_let,
+                                via_let,
+                                nargs: 1,
+                            });
+                        }
+                    }
+                }
+            }
+            TokenTree::Group(g) => scan_sites(&g.stream(), esc_lets, sites, fixed, in_quote),
+            _ => {}
+        }
+        i += 1;
+    }
+}
+
+fn extract(repo: &Path) -> String {
+    let mut errors: Vec<String> = Vec::new();
+
+    // --- RUST_KEYWORDS + is_keyword
+    let mut rust_keywords: Vec<String> = Vec::new();
+    let mut is_keyword_body = String::new();
+    if let Some(f) = read_file(&repo.join("crates/incan_core/src/lang/rust_keywords.rs"), &mut errors) {
+        match find_const(&f, "RUST_KEYWORDS") {
+            Some(c) => str_lits(c.expr.to_token_stream(), &mut rust_keywords),
+            None => errors.push("RUST_KEYWORDS const not found".to_string()),
+        }
+        match find_fn(&f, "is_keyword") {
+            Some(func) => {
+                is_keyword_body = norm(&func.block.to_token_stream());
+                if is_keyword_body != "{ RUST_KEYWORDS . contains ( & name ) }" {
+                    errors.push(format!("rust_keywords::is_keyword has an unrecognised body: `{}`", is_keyword_body));
+                }
+            }
+            None => errors.push("rust_keywords::is_keyword not found".to_string()),
+        }
+    }
+
+    // --- Incan KEYWORDS (canonical + aliases) and from_str
+    let mut incan_keywords: Vec<Value> = Vec::new();
+    let mut from_str_body = String::new();
+    if let Some(f) = read_file(&repo.join("crates/incan_core/src/lang/keywords.rs"), &mut errors) {
+        match find_const(&f, "KEYWORDS") {
+            Some(c) => {
+                let mut arr: Option<&syn::ExprArray> = None;
+                let mut e: &syn::Expr = &c.expr;
+                loop {
+                    match e {
+                        syn::Expr::Reference(r) => e = &r.expr,
+                        syn::Expr::Array(a) => {
+                            arr = Some(a);
+                            break;
+                        }
+                        _ => break,
+                    }
+                }
+                match arr {
+                    Some(a) => {
+                        for el in &a.elems {
+                            match el {
+                                syn::Expr::Call(call) if call.args.len() >= 3 => {
+                                    let mut canon = Vec::new();
+                                    str_lits(call.args[1].to_token_stream(), &mut canon);
+                                    let mut aliases = Vec::new();
+                                    str_lits(call.args[2].to_token_stream(), &mut aliases);
+                                    if canon.len() != 1 {
+                                        errors.push(format!("KEYWORDS entry without a literal canonical spelling: `{}`", norm(&el.to_token_stream())));
+                                    } else {
+                                        incan_keywords.push(json!({"id": norm(&call.args[0].to_token_stream()), "canonical": canon[0], "aliases": aliases}));
+                                    }
+                                }
+                                other => errors.push(format!("unrecognised KEYWORDS entry `{}`", norm(&other.to_token_stream()))),
+                            }
+                        }
+                    }
+                    None => errors.push("KEYWORDS is not an array literal".to_string()),
+                }
+            }
+            None => errors.push("KEYWORDS const not found".to_string()),
+        }
+        match find_fn(&f, "from_str") {
+            Some(func) => {
+                from_str_body = norm(&func.block.to_token_stream());
+                let expect = "{ if let Some ( k ) = KEYWORDS . iter ( ) . find ( | k | k . canonical == s ) { return Some ( k . id ) ; } KEYWORDS . iter ( ) . find ( | k | { let aliases : & [ & str ] = k . aliases ; aliases . contains ( & s ) } ) . map ( | k | k . id ) }";
+                if from_str_body != expect {
+                    errors.push(format!("keywords::from_str has an unrecognised body: `{}`", from_str_body));
+                }
+            }
+            None => errors.push("keywords::from_str not found".to_string()),
+        }
+    }
+
+    // --- lexer identifier classes + scan_identifier keyword lookup
+    let mut ident_start: Vec<String> = Vec::new();
+    let mut ident_continue: Vec<String> = Vec::new();
+    let mut scan_identifier_body = String::new();
+    if let Some(f) = read_file(&repo.join("crates/incan_syntax/src/lexer/mod.rs"), &mut errors) {
+        for (name, out) in [("is_ident_start", &mut ident_start), ("is_ident_continue", &mut ident_continue)] {
+            match find_fn(&f, name).and_then(fn_tail_expr) {
+                Some(e) => {
+                    if let Err(m) = char_class(e, out) {
+                        errors.push(format!("lexer {}: {}", name, m));
+                    }
+                }
+                None => errors.push(format!("lexer {} not found or not a single expression", name)),
+            }
+        }
+        let mut fns = Vec::new();
+        let mut none = None;
+        collect_fns(&f.items, false, &mut fns, &mut none);
+        match fns.iter().find(|x| x.name == "scan_identifier") {
+            Some(x) => {
+                scan_identifier_body = norm(&x.tokens);
+                let expect = "{ while let Some ( c ) = self . peek ( ) { if is_ident_continue ( c ) { self . advance ( ) ; } else { break ; } } let spelling = & self . source [ start .. self . current_pos ] ; if let Some ( id ) = keyword_id ( spelling ) { self . add_token ( TokenKind :: Keyword ( id ) , start ) ; } else { self . add_token ( TokenKind :: Ident ( spelling . to_string ( ) ) , start ) ; } }";
+                let got = scan_identifier_body.clone();
+                if got != expect {
+                    errors.push(format!("lexer scan_identifier has an unrecognised body: `{}`", got));
+                }
+            }
+            None => errors.push("lexer scan_identifier not found".to_string()),
+        }
+    }
+    if let Some(f) = read_file(&repo.join("crates/incan_syntax/src/lexer/tokens.rs"), &mut errors) {
+        match find_fn(&f, "keyword_id") {
+            Some(func) => {
+                let b = norm(&func.block.to_token_stream());
+                if b != "{ keywords :: from_str ( name ) }" {
+                    errors.push(format!("lexer keyword_id has an unrecognised body: `{}`", b));
+                }
+            }
+            None => errors.push("lexer keyword_id not found".to_string()),
+        }
+    }
+
+    // --- emitter: escape_keyword, sites, fixed names
+    let emit_dir = repo.join("src/backend/ir/emit");
+    let mut files = Vec::new();
+    rs_files(&emit_dir, &mut files);
+    if files.is_empty() {
+        errors.push(format!("no .rs files under {}", emit_dir.display()));
+    }
+    let mut escape_rules = Value::Null;
+    let mut escape_src = String::new();
+    let mut sites: Vec<Value> = Vec::new();
+    let mut fixed_all: Vec<String> = Vec::new();
+    for p in &files {
+        let rel = p.strip_prefix(&emit_dir).unwrap_or(p).to_string_lossy().to_string();
+        let Some(f) = read_file(p, &mut errors) else { continue };
+        let mut fns = Vec::new();
+        let mut esc = None;
+        collect_fns(&f.items, false, &mut fns, &mut esc);
+        if let Some(e) = esc {
+            escape_src = norm(&e.block.to_token_stream());
+            match escape_keyword_rules(&e) {
+                Ok(r) => escape_rules = r,
+                Err(m) => errors.push(m),
+            }
+        }
+        let mut seen: std::collections::HashMap<String, usize> = std::collections::HashMap::new();
+        for func in &fns {
+            if func.is_test {
+                continue;
+            }
+            let mut lets = Vec::new();
+            escaped_lets(&func.tokens, &mut lets);
+            let mut raw = Vec::new();
+            let mut fixed = Vec::new();
+            scan_sites(&func.tokens, &lets, &mut raw, &mut fixed, false);
+            fixed_all.extend(fixed);
+            for s in raw {
+                let base = format!("{}:{}:{}", rel, func.name, if s.fmt == "{}" { s.expr.clone() } else { format!("{}<-{}", s.fmt, s.expr) });
+                let n = seen.entry(base.clone()).or_insert(0);
+                *n += 1;
+                let id = if *n == 1 { base.clone() } else { format!("{}#{}", base, n) };
+                // prefix/suffix of the format string around the single `{}`
+                let parts: Vec<&str> = s.fmt.split("{}").collect();
+                let (prefix, suffix, shape_ok) = if parts.len() == 2 && s.nargs == 1 {
+                    (parts[0].to_string(), parts[1].to_string(), true)
+                } else {
+                    (String::new(), String::new(), false)
+                };
+                if !shape_ok {
+                    errors.push(format!("site {} has a format string that is not `<prefix>{{}}<suffix>` with one argument: {:?} / `{}`", id, s.fmt, s.expr));
+                }
+                sites.push(json!({"id": id, "file": rel, "func": func.name, "kind": s.kind, "fmt": s.fmt, "expr": s.expr,
+                                  "prefix": prefix, "suffix": suffix, "escaped": s.escaped, "via_let": s.via_let}));
+            }
+        }
+    }
+    if escape_rules.is_null() && !errors.iter().any(|e| e.contains("escape_keyword")) {
+        errors.push("escape_keyword not found under src/backend/ir/emit".to_string());
+    }
+    fixed_all.sort();
+    fixed_all.dedup();
+
+    json!({
+        "rust_keywords": rust_keywords,
+        "is_keyword_body": is_keyword_body,
+        "incan_keywords": incan_keywords,
+        "from_str_body": from_str_body,
+        "ident_start": ident_start,
+        "ident_continue": ident_continue,
+        "scan_identifier_body": scan_identifier_body,
+        "escape_rules": escape_rules,
+        "escape_src": escape_src,
+        "sites": sites,
+        "fixed_temporaries": fixed_all,
+        "errors": errors,
+    })
+    .to_string()
 }
